@@ -30,6 +30,8 @@ def machines():
     yield "swap", build({"a": ("input", []), "b": ("input", []), "p": ("input", []), "q": ("input", []), "np": ("and", ["q", "a"]), "nq": ("nand", ["p", "b"]), "o": ("xor", ["p", "q"])},
                          outputs=["np", "nq", "o"]), {"np": "p", "nq": "q"}
     yield "no-free-input", build({"s": ("input", []), "ns": ("not", ["s"]), "y": ("buf", ["s"])}, outputs=["ns", "y"]), {"ns": "s"}
+    # a shift chain: `a` is an input that is also an output - the state *input* of one pair and the state *output* of the next
+    yield "chained-pairs-through-a-feed-through", build({"x": ("input", []), "a": ("input", []), "b": ("input", []), "o": ("xor", ["a", "b", "x"]), "y": ("and", ["a", "b"])}, outputs=["o", "a", "y"]), {"o": "a", "a": "b"}
     yield "state-out-used-as-output", build({"x": ("input", []), "s": ("input", []), "ns": ("or", ["x", "s"])}, outputs=["ns"]), {"ns": "s"}
 
 
